@@ -196,8 +196,10 @@ def validate_traces(ctx, progs, res, cfgname="MCTrace_upper.cfg", label="trace",
     import tracecheck
     listed = {k.get("prog_hash") for k in ctx.known.get("findings", [])}
     hashes = [dsl.prog_hash(p) for p in progs]
+    # (programs with `tlexit` are compared by outcome only: the destructor's operation happens after the instruction's log event)
+    late = {i for i, p in enumerate(progs) if any(ins["op"] == "tlexit" for th in p["threads"] for ins in th)}
     skipped = sum(1 for h in hashes if h in listed)
-    rej = tracecheck.validate(ctx, progs, res, cfgname=cfgname, label=label, skip=lambda i: hashes[i] in listed, pb_of=pb_of)
+    rej = tracecheck.validate(ctx, progs, res, cfgname=cfgname, label=label, skip=lambda i: hashes[i] in listed or i in late, pb_of=pb_of)
     ctx.cov["trace_skipped_known_finding_programs"] = ctx.cov.get("trace_skipped_known_finding_programs", 0) + skipped
     for i, meta, info in rej:
         ev = info["event"]
